@@ -25,9 +25,10 @@ Proof.
 Qed.
 
 Lemma gm_mext cfg s s' pb :
-  mgf (mt s') = mgf (mt s) -> (forall k, Rj (getj s' k) (getj s k)) -> GM cfg s pb -> GM cfg s' pb.
+  mgf (mt s') = mgf (mt s) -> (forall k, Rj (getj s' k) (getj s k)) -> GM cfg s pb -> WG cfg s' pb ->
+  (ldm (mt s) = true -> ihas (mt s) = true -> overlap_win (istart (mt s), target (mt s)) (s_w (sr s')) = false) -> GM cfg s' pb.
 Proof.
-  intros Hm Hj [B Jg Mo Fw Fs Pr Ne]. apply mgf_fields in Hm. destruct Hm as (Ed & En & Ee & Er & Ec & Ei & Eis & Eif & Eps & Epz & Et & Ept & Ew & El).
+  intros Hm Hj [B Jg Mo Fw Fs Pr Ne Ch _ _] Wn' Wf'. apply mgf_fields in Hm. destruct Hm as (Ed & En & Ee & Er & Ec & Ei & Eis & Eif & Eps & Epz & Et & Ept & Ew & El & Eld).
   assert (Hin : forall i, inflight s' i <-> inflight s i) by (intros; unfold inflight; rewrite Ed, En; tauto).
   assert (Hlv : forall i, live s' pb i <-> live s pb i) by (intros; unfold live; rewrite Hin, En; tauto).
   assert (Hf : forall i, let j := J cfg s i in let j' := J cfg s' i in
@@ -38,7 +39,7 @@ Proof.
   { intros i. destruct (Hf i) as (E1 & _ & _ & _ & E6). unfold vs. rewrite E1, E6, Ec. reflexivity. }
   assert (Hvf : VF (mt s') = VF (mt s)) by (unfold VF; rewrite El, Ec, Er; reflexivity).
   constructor.
-  - destruct B as [b1 b2 b3 b4 b5 b6 b7 b8]. constructor; rewrite ?Ec, ?Et, ?Ept, ?Epz, ?Eps, ?Er, ?Ei, ?Eis, ?Eif; auto.
+  - destruct B as [b1 b2 b3 b4 b5 b6 b7 b8 b9]. constructor; rewrite ?Ec, ?Et, ?Ept, ?Epz, ?Eps, ?Er, ?Ei, ?Eis, ?Eif, ?Ee; auto.
     unfold need_cap in *. rewrite Ew, Et, Ept. exact b1.
   - intros i Hi. apply Hlv in Hi. destruct (Hf i) as (E1 & E2 & E3 & E4 & E6). destruct (Jg i Hi) as [A Bq C D F G H].
     constructor; unfold VF, vs in *; rewrite ?E1, ?E2, ?E3, ?E4, ?E6, ?Et, ?Ept, ?Ec, ?El, ?Er, ?Epz; auto.
@@ -49,6 +50,48 @@ Proof.
   - intros Hp. destruct (Pr Hp) as (P1 & P2 & P3). unfold PrepGeo. rewrite En, Ei, El, Er. destruct (Hf (next (mt s))) as (E1 & E2 & _ & _ & E6).
     rewrite E1, E2, E6. auto.
   - rewrite Ee. intros He i Hi. apply Hlv in Hi. destruct (Hf i) as (_ & E2 & _). rewrite E2. apply Ne; auto.
+  - eapply chain_ext; [..|exact Ch]; auto.
+    + intros i Hi. apply Hlv; auto.
+    + intros i Hi Hn X. apply Hn. apply Hlv; auto.
+    + intros i _. destruct (Hf i) as (E1 & E2 & _ & E4 & E6). auto.
+  - exact Wn'.
+  - rewrite Eld, Ei, Eis, Et. exact Wf'.
+Qed.
+
+(* the input buffer [istart, istart + target) and an unfinished job in flight: disjoint addresses *)
+Lemma buffer_job_disjoint cfg s pb i :
+  GM cfg s pb -> ihas (mt s) = true -> inflight s i -> unfin (J cfg s i) ->
+  overlap (istart (mt s), target (mt s)) (j_src (J cfg s i), j_size (J cfg s i)) = false /\
+  overlap (istart (mt s), target (mt s)) (j_pstart (J cfg s i), j_psize (J cfg s i)) = false.
+Proof.
+  intros G Hh Hi Hu. pose proof (gm_b _ _ _ G) as B. destruct (bg_ih _ _ B Hh) as (Ei & Hroom & Hf).
+  assert (Hl : live s pb i) by (left; exact Hi).
+  pose proof (gm_j _ _ _ G i Hl) as Gj.
+  assert (Hs : 0 < j_size (J cfg s i)) by (unfold unfin in Hu; lia).
+  pose proof (gm_fs _ _ _ G Hh i Hi Hu) as Fs. pose proof (jg_hi _ _ Gj Hs) as Hhi. pose proof (jg_room _ _ Gj Hs) as Hrm. pose proof (jg_lap _ _ Gj) as Hlap.
+  pose proof (jgeo_psrc _ _ Gj Hs) as Hps. pose proof (bg_t _ _ B) as Ht. pose proof (jg_size _ _ Gj) as Hsz.
+  unfold VF, vs in *. rewrite Ei.
+  assert (Hcase : (j_src (J cfg s i) + j_size (J cfg s i) <= rpos (mt s)) \/ (rpos (mt s) + target (mt s) + j_psize (J cfg s i) <= j_src (J cfg s i))).
+  { destruct (N.lt_trichotomy (j_lap (J cfg s i) + 1) (lap (mt s))) as [Hlt|[Heq|Hgt]].
+    - exfalso. assert (X : (j_lap (J cfg s i) + 2) * rcap (mt s) <= lap (mt s) * rcap (mt s)) by (apply N.mul_le_mono_r; lia). lia.
+    - right. rewrite <- Heq in Fs. lia.
+    - left. assert (E : j_lap (J cfg s i) = lap (mt s)) by lia. rewrite E in Hhi. lia. }
+  split; apply overlap_false; cbn [fst snd].
+  - right. right. destruct Hcase as [X|X]; [left; lia|right; lia].
+  - destruct (N.eq_dec (j_psize (J cfg s i)) 0) as [E0|E0]; [right; left; exact E0|].
+    pose proof (jg_pre _ _ Gj Hs ltac:(lia)) as Hpre. right. right. destruct Hcase as [X|X]; [left; lia|right; lia].
+Qed.
+
+(* WG when the serial state is untouched *)
+Lemma wg_mext cfg s s' pb :
+  mgf (mt s') = mgf (mt s) -> (forall k, Rj (getj s' k) (getj s k)) -> sr s' = sr s -> WG cfg s pb -> WG cfg s' pb.
+Proof.
+  intros Hm Hj Hsr Wn. apply mgf_fields in Hm. destruct Hm as (Ed & En & Ee & Er & Ec & Ei & Eis & Eif & Eps & Epz & Et & Ept & Ew & El & Eld).
+  assert (Hin : forall i, inflight s' i <-> inflight s i) by (intros; unfold inflight; rewrite Ed, En; tauto).
+  assert (Hlv : forall i, live s' pb i <-> live s pb i) by (intros; unfold live; rewrite Hin, En; tauto).
+  eapply wg_ext; [..|exact Wn]; auto; try (rewrite Hsr; reflexivity).
+  - intros i Hi. apply Hlv; auto.
+  - intros i _. destruct (jgs_fields _ _ (proj1 (Hj (slot cfg i)))) as (E1 & E2 & _ & E4 & E6). unfold J. auto.
 Qed.
 
 Lemma scanto_mext cfg s s' k :
@@ -58,7 +101,7 @@ Proof. intros Ed En Hj H i Hi Hlt Hu. unfold inflight in Hi. rewrite Ed, En in H
 Lemma useok_mext cfg s s' use :
   mgf (mt s') = mgf (mt s) -> (forall k, Rj (getj s' k) (getj s k)) -> UseOk cfg s use -> UseOk cfg s' use.
 Proof.
-  intros Hm Hj U. pose proof Hm as Hm0. apply mgf_fields in Hm. destruct Hm as (Ed & En & Ee & Er & Ec & Ei & Eis & Eif & Eps & Epz & Et & Ept & Ew & El).
+  intros Hm Hj U. pose proof Hm as Hm0. apply mgf_fields in Hm. destruct Hm as (Ed & En & Ee & Er & Ec & Ei & Eis & Eif & Eps & Epz & Et & Ept & Ew & El & Eld).
   assert (Hin : forall i, inflight s' i <-> inflight s i) by (intros; unfold inflight; rewrite Ed, En; tauto).
   destruct U as [(U1 & U2)|(d & Hd & Sc & Sz & Eu & Fd)].
   - left. split; auto. intros i Hi Hu. apply Hin in Hi. apply (U2 i Hi). apply Hj. exact Hu.
@@ -80,11 +123,10 @@ Proof.
   - inv_some H. apply rj_refl.
   - inv_some H. apply rj_refl.
   - (* WGetBuf *)
-    destruct (negb _); [inv_some H; apply rj_refl|].
+    destruct (negb _); inv_some H; apply rj_refl.
+  - (* WSetDst *)
     repeat match type of H with (if ?b then _ else _) = _ => destruct b end; inv_some H;
-      change (getj (set_w t ?a ?x) ?k1) with (getj x k1);
-      change (getj s (w_slot w)) with (getj (set_pl (pl_bp (take (bp_nb (pl s))) (pl s)) s) (w_slot w)) at 2;
-      apply rj_set_job; (split; [reflexivity|auto]).
+      change (getj (set_w t ?a ?x) ?k1) with (getj x k1); apply rj_set_job; (split; [reflexivity|auto]).
   - (* WJobErr *)
     inv_some H. change (getj (set_w t ?a ?x) ?k1) with (getj x k1). apply rj_set_job. split; [reflexivity|auto].
   - (* WSerial *)
@@ -121,18 +163,224 @@ Proof.
     cbn [cl set_w set_ws set_pl set_job set_jobs set_sr]; rewrite ?Hwj, ?Hwl; reflexivity.
 Qed.
 
+(* what a pool-thread step does to the serial state: nothing, or its job takes its turn (serial.nextJobID = its id: LDM window update,
+   nextJobID++), or ZSTDMT_serialState_ensureFinished skips a failed job (nextJobID jumps past it, both LDM windows are cleared) *)
+Lemma worker_sr cfg t s s' : worker_step cfg t s = Some s' ->
+  sr s' = sr s \/
+  (exists w, nth_error (ws s) t = Some w /\ w_pc w = WSerial /\ s_next (sr s) = j_id (getj s (w_slot w)) /\
+     s_next (sr s') = s_next (sr s) + 1 /\
+     let w1 := win_cap (wsize (mt s)) (win_update (s_w (sr s)) (j_src (getj s (w_slot w))) (j_size (getj s (w_slot w)))) in
+     s_w (sr s') = (if ldm (mt s) then w1 else s_w (sr s)) /\ s_lw (sr s') = (if ldm (mt s) then w1 else s_lw (sr s))) \/
+  (exists w, nth_error (ws s) t = Some w /\ w_pc w = WEnsure /\ s_next (sr s) <= j_id (getj s (w_slot w)) /\
+     s_next (sr s') = j_id (getj s (w_slot w)) + 1 /\ s_w (sr s') = win_clear (s_w (sr s)) /\ s_lw (sr s') = win_clear (s_lw (sr s))).
+Proof.
+  unfold worker_step. intros H.
+  assert (Hwj : forall c k0 x, sr (wake_caller_job c k0 x) = sr x) by (intros; apply wake_job_proj).
+  assert (Hwl : forall x, sr (wake_caller_ldm x) = sr x) by (intros; apply wake_ldm_proj).
+  destruct (nth_error (ws s) t) as [w|] eqn:Hw; [|discriminate].
+  destruct (w_pc w) eqn:Epc; try discriminate.
+  - destruct (q (pl s)); [destruct (Nat.leb _ _)|]; inv_some H; left; reflexivity.
+  - inv_some H. left. reflexivity.
+  - inv_some H. left. reflexivity.
+  - repeat match type of H with (if ?b then _ else _) = _ => destruct b end; inv_some H; left; reflexivity.
+  - repeat match type of H with (if ?b then _ else _) = _ => destruct b end; inv_some H; left; reflexivity.
+  - inv_some H. left. reflexivity.
+  - (* WSerial *)
+    destruct (_ <? _); [inv_some H; left; reflexivity|].
+    destruct (s_next (sr s) =? j_id (getj s (w_slot w))) eqn:Em; cbn [negb] in H; inv_some H; [|left; reflexivity].
+    apply N.eqb_eq in Em. right. left. exists w. split; [reflexivity|]. split; [exact Epc|]. split; [exact Em|].
+    cbn [andb]. destruct (ldm (mt s)); cbn [sr set_w set_ws]; rewrite ?Hwl; cbn [sr set_sr s_next s_w s_lw]; repeat split; reflexivity.
+  - inv_some H. cbn [sr set_w set_ws set_job set_jobs]. rewrite Hwj. left. reflexivity.
+  - (* WEnsure *)
+    inv_some H. destruct (s_next (sr s) <=? j_id (getj s (w_slot w))) eqn:El; [|left; reflexivity].
+    apply N.leb_le in El. right. right. exists w. split; [reflexivity|]. split; [exact Epc|]. split; [exact El|].
+    cbn [sr set_w set_ws]. rewrite Hwl. cbn [sr set_sr s_next s_w s_lw]. repeat split; reflexivity.
+  - inv_some H. left. reflexivity.
+  - inv_some H. left. reflexivity.
+  - inv_some H. cbn [sr set_w set_ws set_job set_jobs]. rewrite Hwj. left. reflexivity.
+  - inv_some H. left. reflexivity.
+Qed.
+
+(* the job at serial.nextJobID takes its turn: the LDM window swallows its source and is cut to windowSize *)
+Lemma wg_serial_mine cfg s s' pb :
+  GM cfg s pb -> live s pb (s_next (sr s)) ->
+  mgf (mt s') = mgf (mt s) -> (forall k, Rj (getj s' k) (getj s k)) ->
+  s_next (sr s') = s_next (sr s) + 1 ->
+  s_w (sr s') = win_cap (wsize (mt s)) (win_update (s_w (sr s)) (j_src (J cfg s (s_next (sr s)))) (j_size (J cfg s (s_next (sr s))))) ->
+  WG cfg s' pb.
+Proof.
+  intros G Hn Hm Hj Esn Esw. pose proof G as [B Jg Mo Fw Fs Pr Ne Ch Wn].
+  apply mgf_fields in Hm. destruct Hm as (Ed & En & Ee & Er & Ec & Ei & Eis & Eif & Eps & Epz & Et & Ept & Ew & El & Eld).
+  assert (Hin : forall i, inflight s' i <-> inflight s i) by (intros; unfold inflight; rewrite Ed, En; tauto).
+  assert (Hlv : forall i, live s' pb i <-> live s pb i) by (intros; unfold live; rewrite Hin, En; tauto).
+  assert (Hf : forall i, j_src (J cfg s' i) = j_src (J cfg s i) /\ j_size (J cfg s' i) = j_size (J cfg s i) /\ j_psize (J cfg s' i) = j_psize (J cfg s i) /\ j_lap (J cfg s' i) = j_lap (J cfg s i)).
+  { intros i. destruct (jgs_fields _ _ (proj1 (Hj (slot cfg i)))) as (E1 & E2 & _ & E4 & E6). unfold J. auto. }
+  unfold WG. rewrite Eld, Ee, Esw, Ew, El, Ec, Et, Ept, Esn, En. intros Hl He.
+  destruct (Ch He) as (C1 & C2).
+  unfold WG in Wn. specialize (Wn Hl He). destruct (s_w (sr s)) as [[[el eh] pl] ph]. destruct Wn as (W1 & W2 & W3 & W4).
+  set (n := s_next (sr s)) in *. set (jn := J cfg s n) in *.
+  pose proof (Jg n Hn) as Gn. fold jn in Gn. pose proof (Ne He n Hn) as Hsz. fold jn in Hsz.
+  pose proof (win_update_spec el eh pl ph (j_src jn) (j_size jn) Hsz W1 W2) as U.
+  destruct (win_update (el, eh, pl, ph) (j_src jn) (j_size jn)) as [[[el1 eh1] pl1] ph1]. destruct U as (U1 & U2).
+  assert (U3 : el1 <= eh1 /\ pl1 <= ph1) by (destruct U2 as [(A & B' & C & D)|(A & B' & C & D)]; lia).
+  pose proof (win_cap_spec (wsize (mt s)) el1 eh1 pl1 ph1 (proj1 U3) (proj2 U3)) as V.
+  destruct (win_cap (wsize (mt s)) (el1, eh1, pl1, ph1)) as [[[el2 eh2] pl2] ph2]. destruct V as (V1 & V2 & V3 & V4 & V5 & V6).
+  split; [lia|]. split; [lia|]. split; [exact V5|]. right.
+  (* the lap of the new prefix part is the lap of the job; what follows the job follows the window *)
+  exists (j_lap jn).
+  assert (Hend : ph2 = jend jn) by (unfold jend; lia).
+  split; [exact (jg_lap _ _ Gn)|]. split; [pose proof (jg_room _ _ Gn Hsz); pose proof (jg_size _ _ Gn); lia|].
+  split; [|split].
+  - (* the extDict part *)
+    intros Hx. assert (Hx1 : el1 < eh1) by lia. specialize (V6 Hx). subst pl2.
+    destruct U2 as [(A & B' & C & D)|(A & B' & C & D)].
+    + (* contiguous: the old extDict part, possibly shortened *)
+      assert (Hx0 : el < eh) by lia.
+      destruct W4 as [(W4 & _)|(Lp & L1 & L2 & L3 & L4 & L5)]; [lia|]. destruct (L3 Hx0) as (X1 & X2 & X3 & X4).
+      destruct (L4 Hn) as [(Y1 & Y2)|(Y1 & Y2 & Y3)]; fold jn in Y1, Y2.
+      * rewrite Y1. repeat split; try lia.
+      * exfalso. pose proof (jg_psz _ _ Gn). pose proof (cap_bounds _ _ B). pose proof (bg_t _ _ B). lia.
+    + (* after the wrap: the old prefix part becomes the extDict part *)
+      destruct W4 as [(W4 & W5)|(Lp & L1 & L2 & L3 & L4 & L5)]; [lia|].
+      destruct (L4 Hn) as [(Y1 & Y2)|(Y1 & Y2 & Y3)]; fold jn in Y1, Y2; [congruence|]. fold jn in Y3.
+      rewrite Y1. pose proof (jg_psz _ _ Gn). repeat split; try lia.
+  - intros Hi. apply Hlv in Hi. destruct (Hf (n + 1)) as (F1 & F2 & F3 & F4). rewrite Hend.
+    eapply cont_ext; [exact Ec|exact Et|exact F4|exact F1|exact F3|]. apply C1; auto.
+  - intros Hp Hx. rewrite Hend. eapply contc_ext; [exact El|exact Er|exact Epz|exact Ec|exact Et|]. apply C2; auto.
+    intros [(_ & X)|(X & _)]; [lia|congruence].
+Qed.
+
+Lemma wg_cleared cfg s s' pb :
+  mgf (mt s') = mgf (mt s) -> s_w (sr s') = win_clear (s_w (sr s)) -> WG cfg s' pb.
+Proof.
+  intros Hm Esw. unfold WG. rewrite Esw. intros _ _. destruct (s_w (sr s)) as [[[el eh] pl] ph]. cbn [win_clear].
+  split; [lia|]. split; [lia|]. split; [lia|]. left. split; reflexivity.
+Qed.
+
+Lemma gm_worker_step cfg t s s' pb : 0 < c_chunk cfg -> KInv cfg s -> worker_step cfg t s = Some s' -> GM cfg s pb -> GM cfg s' pb.
+Proof.
+  intros Hch K H G1.
+  destruct (worker_step_aux cfg t s s' H) as (Em & _). pose proof (worker_geo cfg t s s' Hch K H) as Hj.
+  assert (Hm : mgf (mt s') = mgf (mt s)) by (rewrite Em; reflexivity).
+  destruct (worker_sr cfg t s s' H) as [E|[(w & Hw & Epc & Emine & Esn & Esw & _)|(w & Hw & Epc & Ele & Esn & Esw & _)]].
+  - eapply gm_mext; [exact Hm|exact Hj|exact G1| |].
+    + eapply wg_mext; [exact Hm|exact Hj|exact E|apply G1].
+    + rewrite E. apply (gm_wfree _ _ _ G1).
+  - destruct (k_wrk _ _ K t w Hw) as (i & Hi & Ek & Hact); [rewrite Epc; reflexivity|].
+    assert (Ei : s_next (sr s) = i) by (rewrite Emine, Ek; apply (k_ids _ _ K); exact Hi).
+    destruct (ldm (mt s)) eqn:Eldm.
+    + eapply gm_mext; [exact Hm|exact Hj|exact G1| |].
+      * eapply wg_serial_mine; [exact G1|rewrite Ei; left; exact Hi|exact Hm|exact Hj|exact Esn|].
+        unfold J. rewrite Ei, <- Ek. exact Esw.
+      * (* the window grows by the source of a job that is in flight and unfinished: disjoint from the input buffer *)
+        intros _ Hh. rewrite Esw.
+        destruct (overlap_win (istart (mt s), target (mt s)) (win_cap (wsize (mt s)) (win_update (s_w (sr s)) (j_src (getj s (w_slot w))) (j_size (getj s (w_slot w)))))) eqn:Eov; [exfalso|reflexivity].
+        destruct Hact as (_ & Hc & _).
+        assert (He : ended (mt s) = false \/ ended (mt s) = true) by (destruct (ended (mt s)); auto).
+        pose proof (gm_win _ _ _ G1) as Wn. pose proof (gm_wfree _ _ _ G1 Eldm Hh) as Wf.
+        destruct (N.eq_dec (j_size (getj s (w_slot w))) 0) as [Ez|Ez].
+        { (* an empty job does not change the window; cutting only shrinks it *)
+          unfold win_update in Eov. rewrite Ez in Eov. cbn [N.eqb] in Eov.
+          destruct (s_w (sr s)) as [[[el eh] pl] ph] eqn:Ew.
+          assert (Hwf : el <= eh /\ pl <= ph).
+          { destruct He as [He|He].
+            - unfold WG in Wn. rewrite Ew in Wn. destruct (Wn Eldm He) as (A & B' & _). auto.
+            - (* after the frame has ended no input buffer is held *)
+              exfalso. pose proof (bg_end _ _ (gm_b _ _ _ G1) He). congruence. }
+          destruct Hwf as (A & B').
+          pose proof (win_cap_spec (wsize (mt s)) el eh pl ph A B') as V.
+          destruct (win_cap (wsize (mt s)) (el, eh, pl, ph)) as [[[el2 eh2] pl2] ph2]. destruct V as (V1 & V2 & V3 & V4 & _).
+          unfold overlap_win in Eov, Wf. apply orb_prop in Eov. apply orb_false_elim in Wf. destruct Wf as (Wf1 & Wf2).
+          destruct Eov as [X|X]; [rewrite (overlap_sub _ (el, eh - el) _ X) in Wf1|rewrite (overlap_sub _ (pl, ph - pl) _ X) in Wf2]; cbn [fst snd]; try discriminate; lia. }
+        destruct Hc as [Hc|(Hc & _)]; [|lia].
+        destruct (s_w (sr s)) as [[[el eh] pl] ph] eqn:Ew.
+        assert (Hwf : el <= eh /\ pl <= ph).
+        { destruct He as [He|He].
+          - unfold WG in Wn. rewrite Ew in Wn. destruct (Wn Eldm He) as (A & B' & _). auto.
+          - exfalso. pose proof (bg_end _ _ (gm_b _ _ _ G1) He). congruence. }
+        assert (Hpos : 0 < j_size (getj s (w_slot w))) by lia.
+        destruct (overlap_win_serial _ _ el eh pl ph _ _ Hpos (proj1 Hwf) (proj2 Hwf) Eov) as [X|X]; [congruence|].
+        destruct (buffer_job_disjoint cfg s pb i G1 Hh Hi) as (D1 & _); [unfold unfin, J; rewrite <- Ek; exact Hc|].
+        unfold J in D1. rewrite <- Ek in D1. congruence.
+    + eapply gm_mext; [exact Hm|exact Hj|exact G1| |].
+      * unfold WG. rewrite Em, Eldm. discriminate.
+      * intros X. congruence.
+  - eapply gm_mext; [exact Hm|exact Hj|exact G1| |].
+    + eapply wg_cleared; [exact Hm|exact Esw].
+    + intros _ _. rewrite Esw. destruct (s_w (sr s)) as [[[el eh] pl] ph]. cbn [win_clear]. unfold overlap_win, overlap. cbn [fst snd]. rewrite !N.sub_diag. cbn. rewrite !orb_true_r. reflexivity.
+Qed.
+
+Lemma pcgeo_worker_step cfg t s s' : 0 < c_chunk cfg -> KInv cfg s -> worker_step cfg t s = Some s' -> PcGeo cfg s -> PcGeo cfg s'.
+Proof.
+  intros Hch K H P1.
+  destruct (worker_step_aux cfg t s s' H) as (Em & Ep & _). pose proof (worker_geo cfg t s s' Hch K H) as Hj. pose proof (worker_step_use cfg t s s' H) as Eu.
+  assert (Hm : mgf (mt s') = mgf (mt s)) by (rewrite Em; reflexivity).
+  unfold PcGeo in *. rewrite Ep, Em, Eu. destruct (awake (c_pc (cl s))); try exact I.
+  - destruct P1 as (A & B & C & D). refine (conj A (conj B (conj C _))). eapply scanto_mext; [rewrite Em; reflexivity|rewrite Em; reflexivity|exact Hj|exact D].
+  - destruct P1 as (A & B & C & D). refine (conj A (conj B (conj _ D))). eapply useok_mext; [exact Hm|exact Hj|exact C].
+  - destruct P1 as (A & B & C & D). refine (conj A (conj B (conj _ D))). eapply useok_mext; [exact Hm|exact Hj|exact C].
+Qed.
+
 Lemma gi_worker_step cfg t s s' : 0 < c_chunk cfg -> KInv cfg s -> GInv cfg s -> worker_step cfg t s = Some s' -> GInv cfg s'.
 Proof.
   intros Hch K (N & G) H. split; [eapply pg_worker_step; eauto|].
-  destruct (worker_step_aux cfg t s s' H) as (Em & Ep & _). pose proof (worker_geo cfg t s s' Hch K H) as Hj. pose proof (worker_step_use cfg t s s' H) as Eu.
-  rewrite Em, Ep. intros Ha Hr. destruct (G Ha Hr) as (G1 & P1).
-  assert (Hm : mgf (mt s') = mgf (mt s)) by (rewrite Em; reflexivity).
-  split.
-  - unfold pbof in *. rewrite Em, Ep. eapply gm_mext; eauto.
-  - unfold PcGeo in *. rewrite Ep. destruct (awake (c_pc (cl s))) eqn:Eaw; auto; rewrite ?Em, ?Eu.
-    + destruct P1 as (A & B & C & D). refine (conj A (conj B (conj C _))). eapply scanto_mext; [rewrite Em; reflexivity|rewrite Em; reflexivity|exact Hj|exact D].
-    + destruct P1 as (A & B & C & D). refine (conj A (conj B (conj _ D))). eapply useok_mext; [exact Hm|exact Hj|exact C].
-    + destruct P1 as (A & B & C & D). refine (conj A (conj B (conj _ D))). eapply useok_mext; [exact Hm|exact Hj|exact C].
+  destruct (worker_step_aux cfg t s s' H) as (Em & Ep & _).
+  assert (Hpb : pbof s' = pbof s) by (unfold pbof; rewrite Em, Ep; reflexivity).
+  rewrite Em, Ep. intros Ha Hr. specialize (G Ha Hr). rewrite Hpb.
+  destruct (awake (c_pc (cl s))) eqn:Eaw;
+    try (destruct G as (G1 & P1); split; [eapply gm_worker_step; eauto|eapply pcgeo_worker_step; eauto]).
+  (* between setBufferSize and setNbSeq: no pool thread holds a job, the serial state does not move *)
+  destruct G as (F1 & F2 & F3 & F4 & F5 & F6 & F7 & F8 & F9 & F10). unfold Fresh. rewrite Em. repeat split; auto.
+  destruct (worker_sr cfg t s s' H) as [E|[(w & Hw & Epc & _)|(w & Hw & Epc & _)]]; [rewrite E; exact F10| |];
+    (exfalso; destruct (k_wrk _ _ K t w Hw) as (i & (X & Y) & _); [rewrite Epc; reflexivity|lia]).
+Qed.
+
+(* ------------------------------------------------------------------ *)
+(* the serial state: published window = window; serial.nextJobID <= nextJobID *)
+
+Lemma srok_worker_step cfg t s s' : KInv cfg s -> SrOk s -> worker_step cfg t s = Some s' -> SrOk s'.
+Proof.
+  intros K (S1 & S2) H. destruct (worker_step_aux cfg t s s' H) as (Em & _). unfold SrOk. rewrite Em.
+  destruct (worker_sr cfg t s s' H) as [E|[(w & Hw & Epc & Emine & Esn & Esw & Elw)|(w & Hw & Epc & Ele & Esn & Esw & Elw)]].
+  - rewrite E. auto.
+  - destruct (k_wrk _ _ K t w Hw) as (i & (X & Y) & Ek & _); [rewrite Epc; reflexivity|].
+    assert (Ei : j_id (getj s (w_slot w)) = i) by (rewrite Ek; apply (k_ids _ _ K); split; auto).
+    split; [rewrite Esw, Elw; destruct (ldm (mt s)); congruence|]. rewrite Esn, Emine, Ei. lia.
+  - destruct (k_wrk _ _ K t w Hw) as (i & (X & Y) & Ek & _); [rewrite Epc; reflexivity|].
+    assert (Ei : j_id (getj s (w_slot w)) = i) by (rewrite Ek; apply (k_ids _ _ K); split; auto).
+    split; [rewrite Esw, Elw, S1; reflexivity|]. rewrite Esn, Ei. lia.
+Qed.
+
+Lemma srok_caller_step cfg w s s' : TInv cfg s -> SrOk s -> caller_step cfg w s = Some s' -> SrOk s'.
+Proof.
+  intros (K & A) (S1 & S2) H. pose proof (k_pc _ _ K) as P. unfold PcInv in P. destruct P as (PA & PB & _).
+  assert (Hgr : forall x, GR cfg s x -> SrOk x).
+  { intros x ((Es & _) & En & _). unfold SrOk. rewrite Es, En. auto. }
+  assert (Hgr' : forall x0 x, sr x0 = sr s -> next (mt x0) = next (mt s) -> GR cfg x0 x -> SrOk x).
+  { intros x0 x Es0 En0 ((Es & _) & En & _). unfold SrOk. rewrite Es, Es0, En, En0. auto. }
+  unfold caller_step in H. cbn zeta in H.
+  destruct (c_pc (cl s)) eqn:Epc; try discriminate.
+  - destruct (_ <? _); inv_some H; apply Hgr; [apply gr_after_inuse|apply gr_scan_inuse].
+  - destruct (overlap_win _ _); inv_some H; [split; auto|apply Hgr; apply gr_move_prefix].
+  - destruct (overlap_win _ _); inv_some H; [split; auto|apply Hgr; apply gr_hand_out].
+  - inv_some H. unfold SrOk. cbn [sr mt set_cpc set_cl set_mt set_job set_jobs set_pl mt_ring next]. split; [exact S1|lia].
+  - destruct (_ || _); inv_some H; unfold SrOk; cbn [sr mt set_cpc set_cl set_mt set_ws set_pl mt_ring next]; split; auto; lia.
+  - destruct (_ && _); inv_some H; [split; auto|apply Hgr; apply gr_flush_body].
+  - inv_some H. eapply Hgr'; [..|apply gr_complete_job]; reflexivity.
+  - unfold jslot in H. destruct (negb _); inv_some H; [split; auto|].
+    eapply Hgr'; [..|apply gr_wait_all]; reflexivity.
+  - inv_some H. eapply Hgr'; [..|apply gr_rel_scan]; [reflexivity|reflexivity|].
+    cbn [mt zero_slot set_job set_jobs set_pl]. destruct (k_pc _ _ K) as (_ & _ & _ & D & _). rewrite Epc in D. cbn in D. lia.
+  - (* CInitBuf: both counters are reset; the windows are kept *)
+    match type of H with (if _ then Some (set_cpc _ ?x) else _) = _ => set (s1 := x) in * end.
+    assert (S0 : SrOk s1) by (unfold SrOk; cbn [sr mt s1 set_sr set_mt s_lw s_w s_next next]; split; [exact S1|lia]).
+    destruct (ldm (mt s)); inv_some H; [exact S0|].
+    destruct S0 as (T1 & T2). destruct (gr_finish_op cfg s1 (ROk 0)) as ((Es & _) & En & _). unfold SrOk. rewrite Es, En. auto.
+  - (* CInitSeq: both windows are reset *)
+    inv_some H.
+    match goal with |- SrOk (finish_op cfg ?x _) => set (s1 := x) end.
+    destruct (gr_finish_op cfg s1 (ROk 0)) as ((Es & _) & En & _). unfold SrOk. rewrite Es, En.
+    cbn [sr mt s1 set_sr set_pl s_lw s_w s_next]. split; [reflexivity|exact S2].
 Qed.
 
 (* ------------------------------------------------------------------ *)
@@ -166,15 +414,28 @@ Proof.
   - intros X. discriminate.
 Qed.
 
+Lemma srok_init cfg ops : SrOk (init cfg ops).
+Proof.
+  unfold init. match goal with |- SrOk (start_ops cfg ?x ops) => set (s0 := x) end.
+  destruct (gr_start_ops cfg ops s0) as ((Es & _) & En & _). unfold SrOk. rewrite Es, En. cbn. split; [reflexivity|lia].
+Qed.
+
 Theorem ginv_reachable cfg ops sched :
   0 < c_chunk cfg -> ops_ok ops -> geo_ops ops ->
-  let s := run state (step cfg) sched (init cfg ops) in TInv cfg s /\ GInv cfg s.
+  let s := run state (step cfg) sched (init cfg ops) in TInv cfg s /\ SrOk s /\ GInv cfg s.
 Proof.
-  intros Hc Ho Hg. apply (run_invariant state (step cfg) (fun s => TInv cfg s /\ GInv cfg s)).
-  - intros s t w s' (TI & GI) Hst. split; [eapply tinv_step; eauto|].
-    destruct t as [|t]; cbn [step] in Hst; [eapply gi_caller_step; eauto|eapply gi_worker_step; eauto; apply TI].
-  - split; [apply tinv_init; auto|apply gi_init; auto].
+  intros Hc Ho Hg. apply (run_invariant state (step cfg) (fun s => TInv cfg s /\ SrOk s /\ GInv cfg s)).
+  - intros s t w s' (TI & SR & GI) Hst. split; [eapply tinv_step; eauto|].
+    destruct t as [|t]; cbn [step] in Hst.
+    + split; [eapply srok_caller_step; eauto|eapply gi_caller_step; eauto].
+    + split; [eapply srok_worker_step; eauto; apply TI|eapply gi_worker_step; eauto; apply TI].
+  - split; [apply tinv_init; auto|]. split; [apply srok_init|apply gi_init; auto].
 Qed.
+
+(* GM outside the short window between setBufferSize and setNbSeq *)
+Lemma ginv_gm cfg s : GInv cfg s -> alldone (mt s) = false -> relphase (awake (c_pc (cl s))) = false ->
+  (Fresh cfg s /\ awake (c_pc (cl s)) = CInitSeq) \/ (GM cfg s (pbof s) /\ PcGeo cfg s).
+Proof. intros (_ & G) Ha Hr. specialize (G Ha Hr). destruct (awake (c_pc (cl s))); auto. Qed.
 
 (* ------------------------------------------------------------------ *)
 (* mt_input_ranges_safe *)
@@ -192,8 +453,9 @@ Theorem input_ranges_safe cfg ops sched :
     overlap (istart (mt s), target (mt s)) (j_src (getj s (slot cfg i)), j_size (getj s (slot cfg i))) = false /\
     overlap (istart (mt s), target (mt s)) (j_pstart (getj s (slot cfg i)), j_psize (getj s (slot cfg i))) = false.
 Proof.
-  intros Hc Ho Hg s Ha Hr Hh. destruct (ginv_reachable cfg ops sched Hc Ho Hg) as (TI & (_ & GI)). fold s in TI, GI.
-  destruct (GI Ha Hr) as (G & _). pose proof (gm_b _ _ _ G) as B. destruct (bg_ih _ _ B Hh) as (Ei & Hroom & Hf).
+  intros Hc Ho Hg s Ha Hr Hh. destruct (ginv_reachable cfg ops sched Hc Ho Hg) as (TI & _ & GI). fold s in TI, GI.
+  destruct (ginv_gm cfg s GI Ha Hr) as [((_ & _ & _ & _ & _ & X & _) & _)|(G & _)]; [congruence|].
+  pose proof (gm_b _ _ _ G) as B. destruct (bg_ih _ _ B Hh) as (Ei & Hroom & Hf).
   split; [lia|]. split; [exact Hf|]. intros i Hi Hu.
   assert (Hl : live s (pbof s) i) by (left; exact Hi).
   pose proof (gm_j _ _ _ G i Hl) as Gj. fold (J cfg s i) in *.
@@ -228,8 +490,10 @@ Theorem older_laps_above_frontier cfg ops sched :
     (j_lap j + 1 = lap (mt s) /\ rpos (mt s) + j_psize j <= j_src j /\ (0 < j_psize j -> j_pstart j + j_psize j = j_src j) /\
      forall a n, a + n <= rpos (mt s) -> overlap (a, n) (j_src j, j_size j) = false /\ overlap (a, n) (j_pstart j, j_psize j) = false).
 Proof.
-  intros Hc Ho Hg s Ha Hr. destruct (ginv_reachable cfg ops sched Hc Ho Hg) as (TI & (_ & GI)). fold s in TI, GI.
-  destruct (GI Ha Hr) as (G & _). pose proof (gm_b _ _ _ G) as B. split; [exact (bg_pp _ _ B)|]. intros i Hi Hu j.
+  intros Hc Ho Hg s Ha Hr. destruct (ginv_reachable cfg ops sched Hc Ho Hg) as (TI & _ & GI). fold s in TI, GI.
+  destruct (ginv_gm cfg s GI Ha Hr) as [((F1 & F2 & _ & _ & _ & _ & _ & F8 & _) & _)|(G & _)].
+  { split; [rewrite F8; lia|]. intros i (X & Y). lia. }
+  pose proof (gm_b _ _ _ G) as B. split; [exact (bg_pp _ _ B)|]. intros i Hi Hu j.
   assert (Hl : live s (pbof s) i) by (left; exact Hi).
   pose proof (gm_j _ _ _ G i Hl) as Gj. fold (J cfg s i) in Gj. fold j in Gj, Hu.
   assert (Hs : 0 < j_size j) by lia.
@@ -246,4 +510,19 @@ Proof.
   intros a n Han. split; apply overlap_false; cbn [fst snd].
   - right. right. right. lia.
   - destruct (N.eq_dec (j_psize j) 0) as [E0|E0]; [right; left; exact E0|]. specialize (Hpre ltac:(lia)). right. right. right. lia.
+Qed.
+
+(* ... nor the LDM window: the published copy ldmWindow always equals ldmState.window (the window the next serial section searches), and
+   while the application thread holds an input buffer the buffer overlaps neither part of it *)
+Theorem ldm_window_safe cfg ops sched :
+  0 < c_chunk cfg -> ops_ok ops -> geo_ops ops ->
+  let s := run state (step cfg) sched (init cfg ops) in
+  s_lw (sr s) = s_w (sr s) /\
+  (alldone (mt s) = false -> relphase (awake (c_pc (cl s))) = false -> ldm (mt s) = true -> ihas (mt s) = true ->
+   overlap_win (istart (mt s), target (mt s)) (s_w (sr s)) = false).
+Proof.
+  intros Hc Ho Hg s. destruct (ginv_reachable cfg ops sched Hc Ho Hg) as (_ & (Sy & _) & GI). fold s in Sy, GI.
+  split; [exact Sy|]. intros Ha Hr Hl Hh.
+  destruct (ginv_gm cfg s GI Ha Hr) as [((_ & _ & _ & _ & _ & X & _) & _)|(G & _)]; [congruence|].
+  exact (gm_wfree _ _ _ G Hl Hh).
 Qed.
